@@ -149,6 +149,14 @@ def build_geo(spec, cover=None):
         mx, my = spec["margin"] * (x.max() - x.min()), spec["margin"] * (y.max() - y.min())
         return AreaDefinition("a", "a", "a", spec["proj"], w, h,
                               (float(x.min() - mx), float(y.min() - my), float(x.max() + mx), float(y.max() + my)))
+    if spec["kind"] == "fan":
+        # fine curvilinear swath directly in degrees: spacing d, column spacing growing with the row number and vice versa
+        h, w = spec["shape"]
+        jj, ii = np.mgrid[0:h, 0:w].astype(np.float64)
+        d = spec["d"]
+        lons = spec["lon0"] + d * ii * (1 + spec["f1"] * jj) + spec["g1"] * d * jj
+        lats = spec["lat0"] - d * jj * (1 + spec["f2"] * ii) + spec["g2"] * d * ii
+        return SwathDefinition(lons, lats)
     # swath: a lattice in the coordinates of a base projection, mapped by an affine transform, jittered, inverse-projected
     h, w = spec["shape"]
     p = Proj(spec["proj"])
@@ -223,12 +231,27 @@ if "resample" in req:
                 r["slices_y"] = np.asarray(rn.slices_y).astype(int).tolist()
                 r["mask"] = np.asarray(rn.mask_slices).astype(int).tolist()
                 r["data"] = {k: jl(v) for k, v in fl.items()}
-                r["np"] = {}
-                for name, d in fl.items():
-                    r["np"][name] = jl(rn.get_sample_from_bil_info(d.copy(), fill_value=np.nan))
-                stack = np.stack([fl["const"], fl["affine"], fl["random"]])     # (3, y, x): "bands first"
-                r["np"]["stack"] = jl(np.moveaxis(np.asarray(
-                    rn.get_sample_from_bil_info(stack.copy(), fill_value=np.nan)), -1, 0))
+                r["valid_out"] = np.flatnonzero(rn._valid_output_indices).astype(int).tolist()
+                ints_ = {}
+                if c.get("int_dtypes"):
+                    jj, ii = np.mgrid[0:lons.shape[0], 0:lons.shape[1]]
+                    for dt in c["int_dtypes"]:
+                        hi_, a_, b_ = c["int_ramp"]
+                        ints_[dt] = (hi_ - a_ * ii - b_ * jj).astype(np.dtype(dt))     # decreasing towards east and south
+                    r["int_data"] = {dt: jl(v) for dt, v in ints_.items()}
+                try:
+                    r["np"] = {}
+                    for name, d in fl.items():
+                        r["np"][name] = jl(rn.get_sample_from_bil_info(d.copy(), fill_value=np.nan))
+                    stack = np.stack([fl["const"], fl["affine"], fl["random"]])     # (3, y, x): "bands first"
+                    r["np"]["stack"] = jl(np.moveaxis(np.asarray(
+                        rn.get_sample_from_bil_info(stack.copy(), fill_value=np.nan)), -1, 0))
+                    for dt, v in ints_.items():
+                        r["np"]["int:" + dt] = jl(np.asarray(rn.get_sample_from_bil_info(v.copy(), fill_value=0), dtype=np.float64))
+                        r["np"]["intref:" + dt] = jl(rn.get_sample_from_bil_info(v.astype(np.float64), fill_value=0))
+                except Exception as e:
+                    r.pop("np", None)
+                    r["np_error"] = err(e)
                 # the neighbour tables the pipeline works on (kd-tree and PROJ are oracles for the model): same calls, same
                 # order as BilinearBase.get_bil_info
                 if c.get("pixel_sample"):
@@ -243,8 +266,9 @@ if "resample" in req:
                         r["valid_out"] = np.flatnonzero(r2._valid_output_indices).astype(int).tolist()
                         r["valid_data_random"] = jl(fl["random"].ravel()[np.asarray(r2._valid_input_index)])
                 # one-call API as well
-                r["np"]["resample_api"] = jl(NumpyBilinearResampler(src, tgt, c["radius"], **kw).resample(
-                    fl["random"].copy(), fill_value=np.nan))
+                if "np" in r:
+                    r["np"]["resample_api"] = jl(NumpyBilinearResampler(src, tgt, c["radius"], **kw).resample(
+                        fl["random"].copy(), fill_value=np.nan))
             if c.get("want_xarray", True):
                 import dask.array as da
                 import xarray as xr
@@ -263,6 +287,14 @@ if "resample" in req:
                     rx = XArrayBilinearResampler(src, tgt, c["radius"], **kw)
                     arr = xr.DataArray(da.from_array(stack.copy(), chunks=ch3), dims=("bands", "y", "x"))
                     r["xr"][key]["stack"] = jl(rx.resample(arr, fill_value=np.nan).values)
+                    if c.get("int_dtypes"):
+                        jj, ii = np.mgrid[0:lons.shape[0], 0:lons.shape[1]]
+                        for dt in c["int_dtypes"]:
+                            hi_, a_, b_ = c["int_ramp"]
+                            v = (hi_ - a_ * ii - b_ * jj).astype(np.dtype(dt))
+                            rx = XArrayBilinearResampler(src, tgt, c["radius"], **kw)
+                            arr = xr.DataArray(da.from_array(v, chunks=ch2), dims=("y", "x"))
+                            r["xr"][key]["int:" + dt] = jl(np.asarray(rx.resample(arr, fill_value=0).values, dtype=np.float64))
                 r["chunk_size_env"] = os.environ.get("PYTROLL_CHUNK_SIZE", "")
         except Exception as e:
             import traceback
